@@ -372,6 +372,9 @@ func runTaskShared(t *ConcTask, yield func(), shared any) (digest string, detail
 		return fmt.Sprintf("%x", h.Sum(nil)[:12]), fmt.Sprintf("writer %s image=%d bytes anyerr=%v panic=%v", t.W.Format, len(res.Sink.Image), res.AnyErr, res.AnyPanic)
 	}
 	b := t.R.Stream.Build()
+	if b.Err == errWriterFailed {
+		return "unusable-input", "reader task: the library writer got its input stream wrong (left to the writer checks)"
+	}
 	if b.Err != nil {
 		sim.Infra("cannot build stream: %v", b.Err)
 	}
